@@ -836,7 +836,7 @@ input::
                 if t is None:
                     t = cn.impose_at(*to.select_params(self,collapses[k]))
                 else: # (a list of targets holds one target per parameter)
-                    if hasattr(t, '__len__'): t = [t[i] for i in collapses[k]]
+                    if hasattr(t, '__len__') and getattr(t, 'ndim', 1) and len(t) > 1: t = [t[i] for i in collapses[k]]
                     t = cn.impose_at(collapses[k],t)
                 conditions.append(t)
             elif k.startswith('CollapseAs'):
